@@ -145,7 +145,9 @@ def run(ctx):
         lines = rnd.randrange(1, 17 if q else 65)
         tracks = rnd.randrange(1, 5 if q else 9)
         if k == 3:              # scale: hundreds of lines, 16+ tracks
-            lines, tracks = rnd.choice([300, 513]), rnd.choice([16, 32])
+            lines, tracks = rnd.choice([300, 513]), rnd.choice([17, 32])
+        if k == 4:
+            lines, tracks = 257, 16
         image = []
         for _ in range(lines * tracks):
             if rnd.random() < 0.25:
